@@ -14,8 +14,13 @@ PROP = {
                   "once (C06_pages_enumerate); merge_top_k and the whole collector are proved exact under the proviso that fruits reach the merge in ascending address "
                   "order (C06_merge_top_k_exact, C06_collect_exact). That proviso is NOT met by the code: finding F15 (wrong tie-break across segments, witness "
                   "C06_collect_tie_refuted, reproduced on the implementation). The design's claim that the threshold only rises is refuted on model and code "
-                  "(C06_threshold_monotone_refuted; harmless). Block-max WAND: see the theorems named C06_wand_* in Properties/C06.v; metadata that is not an upper bound "
-                  "(F3, F6) is classified, witnessed and reproduced. Multi-clause float sums are compared with the documented tolerance (partial).",
+                  "(C06_threshold_monotone_refuted; harmless). Block-max WAND: block_wand_single_scorer (term queries) is modelled over posting lists with arbitrary block "
+                  "boundaries and proved, for every collector with a non-decreasing threshold, to terminate within a linear fuel bound in exactly the state exhaustive scoring "
+                  "reaches whenever block maxima are upper bounds (C06_wand_single_sound, C06_wand_single_terminates; C06_wand_needs_upper_bounds_refuted shows the hypothesis is "
+                  "needed). PARTIAL: block_wand for unions is transliterated (Rank/Wand.v Section Union) and tested against exhaustive scoring but its soundness theorem is not "
+                  "proved; block_wand_intersection is not modelled; both are covered end-to-end by the harness only. Metadata that is not an upper bound (F3: C06_blockmax_bound_refuted, "
+                  "F6: C06_max_score_bound_refuted, exact rationals over the regenerated BM25 constants) is classified, witnessed and reproduced on the implementation. "
+                  "Multi-clause float sums are compared with the documented tolerance (partial).",
     "level_note": "Trusted: Coq kernel + vm_compute; pin.py; harness; std select_nth_unstable_by / sort_unstable_by and BinaryHeap only through their contracts "
                   "(Section hypotheses; TopNHeap of the score path is covered end-to-end, not modelled); posting-list codec and skip reader abstracted as lists of "
                   "blocks (C07/C13 cover them); f32 arithmetic not modelled (scores are exact numbers in the theorems). No axioms.",
